@@ -73,9 +73,12 @@ Theorem C03_solver_setting : forall (O : XOps) (ops : list op) (s : st O),
 Proof. exact solver_setting. Qed.
 Print Assumptions C03_solver_setting.
 
-(* C03_inv_2d / C03_history_2d (Baseline2D, _PolyHelper2D keyed by (orders, max_cross), SplineBasis2D
-   keyed by (knots, degrees), lazily created x and z).  Reads are keys; the array a key denotes is a
-   deterministic library function of (x, z, key). *)
+(* C03_inv_2d / C03_history_2d (Baseline2D, _PolyHelper2D keyed by (orders, max_cross), lazily created x and z,
+   and the THREE-level spline cache: the SplineBasis2D attributes (knots, degrees) that same_basis compares, the
+   per-axis bases basis_r / basis_c, and the lazily created full basis `_basis` read only by pspline_iasls).
+   Inv2 includes: the per-axis bases are the ones of the key's axes, and the lazy cell is None or the Kronecker
+   product of the CURRENT per-axis bases.  Reads (Vandermonde, pseudo-inverse, per-axis bases, full basis) are
+   keys; the array a key denotes is a deterministic library function of (x, z, key). *)
 Theorem C03_inv_2d : forall (x0 z0 : option Z) (ops : list op2), Inv2 (run2 ops (init2 x0 z0)).
 Proof. exact inv2_run. Qed.
 Print Assumptions C03_inv_2d.
@@ -125,6 +128,11 @@ Theorem C03_group_prefix : forall (ops : list op) (s : st XSym),
   exists k, fst (step_group s ops) = run XSym (firstn k ops) s.
 Proof. exact step_group_prefix. Qed.
 Print Assumptions C03_group_prefix.
+
+Theorem C03_group_prefix_2d : forall (ops : list op2) (s : st2),
+  exists k, fst (step_group2 s ops) = run2 (firstn k ops) s.
+Proof. exact step_group2_prefix. Qed.
+Print Assumptions C03_group_prefix_2d.
 
 (* non-vacuity: the contracts of C03_history are jointly satisfiable (lists of integers, repeated
    multiplication, firstn), giving a hypothesis-free instance of the theorem *)
